@@ -10,6 +10,19 @@ def run(out, explore=0):
     quick = out.tier == "quick"
     variants = (0, 1, 2, 3, 4, 5) if quick else tuple(range(8))
     pool, recs, items = L.build_items(out, "C03", explore or 50, variants=variants)
+    # definitions with the same event type in two branches of one fork before the merge (outside the letter of F, the
+    # shape of the corpus' merge_from_similar_paths / multiple_same_event cases); frozen pool harness/pool/R.jsonl
+    import json as _json
+    from pathlib import Path as _Path
+    rpool = [_json.loads(l) for l in (_Path(__file__).resolve().parent / "pool" / "R.jsonl").read_text().splitlines() if l.strip()]
+    # and "bunched" definitions: a branch that begins with a nested fork, again with an event type shared by two
+    # branches (the shape of the corpus' bunched_* cases combined with similar paths); frozen pool harness/pool/B.jsonl
+    bpool = [_json.loads(l) for l in (_Path(__file__).resolve().parent / "pool" / "B.jsonl").read_text().splitlines() if l.strip()]
+    for rec in L.select(rpool, out.seed + 2, out.tier, 40) + L.select(bpool, out.seed + 3, out.tier, 60):
+        jobs = L.complete_jobs(rec)
+        recs.append(rec)
+        for v in variants:
+            items.append(dict(rec=rec, jobs=jobs, variant=v, subset=False))
     L.learn(items)
     pre = [L.pre_check(it) for it in items]
     # compare every variant with variant 0 of the same definition
@@ -60,7 +73,7 @@ def run(out, explore=0):
         "exhaustive": False, "definitions": len(recs), "learner_runs": len(items), "variants": {v: list(L.VARIANTS[v]) + list(L.VARIANT_ENV[v]) for v in variants},
         "failure_kinds": kinds, "failing_keys": failing, "pairs_compared": len(other),
         "evaluations": len(items), "distinct_nontrivial": len({it["rec"]["id"] for it in items if it["rec"]["events"] >= 4}),
-        "rule": "pool slice x presentation variants (job permutation, event permutation inside jobs, id renaming + time shift, a job "
+        "rule": "pool slice + the 63 corpus definitions + 40 (thorough: 250) definitions of the frozen pool R (same event type in two branches of a fork) + 60 (thorough: 143) of the frozen pool B (a branch beginning with a nested fork, plus a shared event type) x presentation variants (job permutation, event permutation inside jobs, id renaming + time shift, a job "
                 "supplied twice, PYTHONHASHSEED in {0,1,12345,777,4242} in separate processes, distinct uuid streams); each variant "
                 "compared with variant 0 by two-way bounded language inclusion in coqc",
         "trusted_base": common.std_trusted_base(["validators as in C01/C02; presentation variants derived from (definition id, variant)"]),
